@@ -128,6 +128,13 @@ fn eval_sign<'a>(args: &[Option<Value<'a>>]) -> Option<Value<'a>> {
 }
 
 fn eval_mod<'a>(args: &[Option<Value<'a>>]) -> Option<Value<'a>> {
+    // two integers: exact integer remainder (f64 loses the low bits beyond 2^53)
+    if let (Some(Value::Int(a)), Some(Value::Int(b))) = (args.first()?.as_ref(), args.get(1)?.as_ref()) {
+        if *b == 0 {
+            return Some(Value::Null);
+        }
+        return Some(Value::Int(a.wrapping_rem(*b)));
+    }
     let a = get_float(args.first()?)?;
     let b = get_float(args.get(1)?)?;
 
@@ -168,8 +175,14 @@ fn eval_floor<'a>(args: &[Option<Value<'a>>]) -> Option<Value<'a>> {
 }
 
 fn eval_round<'a>(args: &[Option<Value<'a>>]) -> Option<Value<'a>> {
-    let val = get_float(args.first()?)?;
     let decimals = args.get(1).and_then(get_int).unwrap_or(0);
+    // an integer rounded to zero or more decimals is itself (f64 loses the low bits beyond 2^53)
+    if let Some(Value::Int(n)) = args.first()?.as_ref() {
+        if decimals >= 0 {
+            return Some(Value::Int(*n));
+        }
+    }
+    let val = get_float(args.first()?)?;
 
     let multiplier = 10_f64.powi(decimals as i32);
     let rounded = (val * multiplier).round() / multiplier;
@@ -182,8 +195,13 @@ fn eval_round<'a>(args: &[Option<Value<'a>>]) -> Option<Value<'a>> {
 }
 
 fn eval_truncate<'a>(args: &[Option<Value<'a>>]) -> Option<Value<'a>> {
-    let val = get_float(args.first()?)?;
     let decimals = args.get(1).and_then(get_int).unwrap_or(0);
+    if let Some(Value::Int(n)) = args.first()?.as_ref() {
+        if decimals >= 0 {
+            return Some(Value::Int(*n));
+        }
+    }
+    let val = get_float(args.first()?)?;
 
     let multiplier = 10_f64.powi(decimals as i32);
     let truncated = (val * multiplier).trunc() / multiplier;
